@@ -100,7 +100,8 @@ func (p *Prog) checkSymmetric(r *Report, f *Func, recvType string, depth int) {
 	pj.sides[recv] = "c"
 	for _, fl := range f.Decl.Type.Params.List {
 		for _, n := range fl.Names {
-			if n.Name == "other" {
+			// the other candidate: the parameter of the equality method (whatever it is called)
+			if n.Name != "_" {
 				pj.sides[p.ObjOf(n)] = "o"
 			}
 		}
